@@ -17,7 +17,7 @@ from inference.likelihoods import GaussianLikelihood, CauchyLikelihood, Logistic
 
 mp.mp.dps = 40
 RULE = ("cases = (likelihood class, data size 1..40, per-datum scales over 1e-8..1e8, residual z-scores up to 1e4, "
-        "forward model family, theta); non-trivial = some |z| > 30, or n >= 2 with scales spread over >= 10x")
+        "forward model family, theta; data sizes to 200 so that products of the scales leave the float range); non-trivial = some |z| > 30, or n >= 2 with scales spread over >= 10x")
 ASSUMPTIONS = ["the Jacobian supplied to the likelihood is the analytic Jacobian of the forward model",
                "tolerance 1e-12 relative to sum of |per-datum log-density| (+ n) for values, 1e-10 for gradients"]
 
@@ -99,11 +99,11 @@ def scipy_logpdf(cls, y, F, s):
 def cases(draw):
     cls = draw(st.sampled_from(sorted(CLASSES)))
     kind = draw(st.sampled_from(["constant", "linear", "poly", "expdecay", "sin"]))
-    n = draw(st.one_of(st.integers(1, 4), st.integers(1, 12), st.integers(1, 40)))
+    n = draw(st.one_of(st.integers(1, 4), st.integers(1, 12), st.integers(1, 40), st.integers(41, 200)))
     p = N_THETA.get(kind) or draw(st.integers(1, 5))
     x = [draw(st.floats(-2, 2, width=32)) for _ in range(n)]
     theta = [draw(st.floats(-3, 3, width=32)) for _ in range(p)]
-    base_log = draw(st.floats(-8, 8))
+    base_log = draw(st.one_of(st.floats(-8, 8), st.sampled_from([-8.0, -6.0, 6.0, 8.0])))
     hetero = draw(st.booleans())
     logs = [base_log + (draw(st.floats(-2, 2)) if hetero else 0.0) for _ in range(n)]
     logs = [min(8.0, max(-8.0, v)) for v in logs]
@@ -173,7 +173,9 @@ def body_value(case, ctx):
     ctx.event(f"cls={cls}")
     ctx.event("zmax>30" if zmax > 30 else "zmax<=30")
     ctx.event("hetero" if spread else "homog")
-    ctx.event("n=1" if n == 1 else ("n<=12" if n <= 12 else "n>12"))
+    ctx.event("n=1" if n == 1 else ("n<=12" if n <= 12 else ("n<=40" if n <= 40 else "n>40")))
+    if n * abs(np.mean(case["log10s"])) > 308:
+        ctx.event("product-of-scales-outside-float-range")
 
 
 def body_gradient(case, ctx):
